@@ -463,13 +463,21 @@ def part_b(ctx):
             p['ref'] = prox
             for _ in range(1 + ds.choose(2)):
                 rec = {'hits': [], 'active': True}
-                rec['fn'] = mk_cb(rec, 'proxy%d' % idx)
+                if ds.flag(0.35):
+                    # a bound method: the method object handed over is a temporary
+                    h = Holder(rec, 'proxy%d' % idx)
+                    rec['holder'] = h
+                    rec['fn'] = h.on_lost
+                    sim.probe('B-bound-method-callback')
+                    prox.notifyOnDisconnect(h.on_lost)
+                else:
+                    rec['fn'] = mk_cb(rec, 'proxy%d' % idx)
+                    prox.notifyOnDisconnect(rec['fn'])
                 p['cbs'].append(rec)
-                prox.notifyOnDisconnect(rec['fn'])
             if ds.flag(0.2) and p['cbs']:
                 r = p['cbs'][0]
                 r['active'] = False
-                prox.cancelNotifyOnDisconnect(r['fn'])
+                prox.cancelNotifyOnDisconnect(r['holder'].on_lost if 'holder' in r else r['fn'])
                 sim.probe('B-callback-cancelled')
             return None
 
